@@ -687,8 +687,9 @@ macro_rules! algorithm {
             match iter.peek().map(|&c| char_to_digit_const(c, format.radix())) {
                 // Valid digit, we have an invalid value.
                 Some(Some(_)) => into_error!(InvalidLeadingZeros, index),
-                // Have a non-digit character that follows.
-                Some(None) => $invalid_digit!(<T>::ZERO, iter.cursor() + 1, iter.current_count()),
+                // Have a non-digit character that follows: the digit loop
+                // handles it (it may be a base suffix).
+                Some(None) => {},
                 // No digits following, has to be ok
                 None => $into_ok!(<T>::ZERO, iter.cursor(), iter.current_count()),
             };
